@@ -11,18 +11,19 @@ CFG = {
     "overlay": ["consensus/aquahash/access.go"],
     "trivial_outputs": ["panic"],
     "min_cases": 5000,
+    "race": True,   # thorough tier: harness rebuilt with -race; a detected data race makes it exit 66 -> harness-crash -> VIOLATION
     "timeout": {"quick": 900, "thorough": 3000},
     "rule": "VerifySeal (real engine, real argon2id at 1/16/32 KiB) on random headers of versions 2-4 with difficulties 1, 0, negative, 2, 2^256-1, 2^256, 2^256+1, random; "
             "targets placed exactly on and next to the computed hash (target = H-1, H, H, H+1 by replacing the numerator N of N/difficulty through an overlay accessor after hashing - "
             "the difficulty itself is hashed, so it cannot be tuned); wrong mix digests; versions 0, 5, 255; block numbers at the 2048*30000 table bound; nonces 0, 1, 2^63, 2^64-1 and "
             "byte-order-sensitive ones (the table carries the big-endian and other-version hashes too); test-mode ethash for version 1; GetBlockVersion at heights around HF5/HF8/HF9 of "
-            "all six built-in schedules and random fork maps; Header.Hash/HashNoNonce/Block.Hash/MinerHash for the version of the height and for explicit versions 0-5 (Keccak-256 and RLP "
+            "all six built-in schedules and random fork maps; a seal-and-verify loop (18 s quick / 150 s thorough: threads 2,3,4,8,16, difficulty 2-4, versions 2-4, ~15-25k rounds per quick run on 16 idle cores, every returned block judged by the real VerifySeal; thorough tier additionally under the Go race detector); Header.Hash/HashNoNonce/Block.Hash/MinerHash for the version of the height and for explicit versions 0-5 (Keccak-256 and RLP "
             "recomputed in Lean); Seal with 1,2,3,4,8,16 threads at heights around the version forks, every returned seal re-verified. Non-trivial = a case the real code did not panic on.",
     "tie": {"aquahash.epochLength / maxEpoch / maxUint256, argon2id parameters of crypto.VersionHash": "gen (value dump of package aquahash; behavioural match against x/crypto/argon2.IDKey in package crypto)",
             "params fork maps": "gen (value dump of package params)",
             "(*ChainConfig).GetBlockVersion": "corr (vs Model.getBlockVersion over generated fork maps) + Spec judgement (versionSpec over the schedules of record)",
             "(*Aquahash).VerifySeal": "corr (vs Model.verifySeal, hash values from the real primitives) + Spec judgement (SealValid)",
-            "(*Aquahash).Seal / mine": "direct judgement on the real code (every returned seal passes the real VerifySeal and the model/Spec); mine's loop is modelled (mineFrom) and proved sound",
+            "(*Aquahash).Seal / mine": "direct judgement on the real code (every returned seal passes the real VerifySeal and the model/Spec; tens of thousands of multi-threaded low-difficulty seals per run; -race in the thorough tier); mine's loop is modelled (mineFrom, one thread) and proved sound - the goroutines sharing nothing but the found/abort channels is NOT a theorem, it is exercised",
             "(*Header).Hash / HashNoNonce, (*Block).Hash / MinerHash / SetVersionConfig": "corr (vs Model.headerHash / hashNoNonce; RLP and Keccak-256 recomputed in Lean)"},
     "assumptions": ["argon2id (x/crypto/argon2), ethash hashimoto (light = full) and Keccak-256 are assumed; the theorems hold for every hash function",
                     "mined_seal_verifies presupposes that the block handed to Seal carries the version of its height (as miner.worker and Finalize set it): mine takes HashNoNonce before it sets header.Version",
